@@ -201,3 +201,41 @@ Theorem C07_code_tie_chain_drop :
     = GVal (if dropped h kf then [Ev "remove-file"%string []] else []).
 Proof. exact plan_dropped. Qed.
 Print Assumptions C07_code_tie_chain_drop.
+
+From JK Require Import Gen.GoPrice Proofs.GoTiePost.
+
+(* the plan branch of the storage PostFile handler, generated from the current source as a whole: the file under the
+   same key is released first, the new file written, then the post is refused without a plan, with a plan that is
+   over, or beyond the remaining space (compared without overflow), and otherwise the plan's usage grows by exactly
+   the footprint; the model's step is the interpretation of these events on the plan read after the release *)
+Theorem C07_code_tie_PostFile_against_the_plan :
+  forall window h size maxp expires ppt jkl refc polr c1 c2 c3 c4 found plan_over avail used,
+    expires <= 0 ->
+    gen_PostFile true window h size maxp expires ppt jkl refc polr c1 c2 c3 c4 found plan_over avail used
+    = GVal (plan_events window size maxp expires found plan_over avail used).
+Proof.
+  intros. rewrite gen_PostFile_spec. cbn [negb].
+  destruct (Z.ltb_spec 0 expires); [|reflexivity]. exfalso. apply (Z.lt_irrefl 0). eapply Z.lt_le_trans; eassumption.
+Qed.
+Print Assumptions C07_code_tie_PostFile_against_the_plan.
+
+Theorem C07_code_tie_model_post_file_interprets_the_events :
+  forall s h now window m,
+    0 < pm_size m -> 0 < pm_maxp m -> pm_size m <= Z.quot int64_max (pm_maxp m) -> pm_expires m <= 0 ->
+    let key : fkey := (pm_merkle m, pm_creator m, h) in
+    let s1 := remove_file s key in
+    let f := {| f_size := pm_size m; f_maxp := pm_maxp m; f_expires := pm_expires m; f_pi := window; f_provers := 0 |} in
+    let s2 := {| plans := plans s1; files := aset fkey_eqb (files s1) key f |} in
+    let p := get_plan s2 (pm_creator m) in
+    let avail := match p with Some q => p_avail q | None => 0 end in
+    let used := match p with Some q => p_used q | None => 0 end in
+    let over := match p with Some q => p_end q <? now | None => false end in
+    post_file s h now window m
+    = if negb (pm_note_ok m) then (s, PlFail)
+      else match plan_events window (pm_size m) (pm_maxp m) (pm_expires m) (is_some p) over avail used, p with
+           | (_, true), Some q =>
+               (set_plan s2 (pm_creator m) (with_used q (wrap64 (p_used q + wrap64 (pm_size m * pm_maxp m)))), PlOk)
+           | _, _ => (s, PlFail)
+           end.
+Proof. exact plan_post_file_is_the_interpretation. Qed.
+Print Assumptions C07_code_tie_model_post_file_interprets_the_events.
